@@ -240,6 +240,14 @@ func (schemaCompiler) typeConstraintForJSONTypes(node schema.Node, val bytes.Byt
 	h, ok := jsonTypesHandler[valStr]
 	if ok {
 		h(node)
+		// A rule-set of the "or" rule ({type: "email"}, {type: "decimal", precision: 2})
+		// describes values of the JSON type of its "type" rule, not of the EXAMPLE
+		// the "or" rule is attached to.
+		if mixedNode, ok := node.(*schema.MixedNode); ok {
+			if t, ok := jsonTypeOfSchemaType[valStr]; ok {
+				mixedNode.SetJsonType(t)
+			}
+		}
 	} else {
 		t := json.NewJsonType(val)                         // can panic
 		if mixedNode, ok := node.(*schema.MixedNode); ok { // defined json type for mixed node
@@ -251,6 +259,17 @@ func (schemaCompiler) typeConstraintForJSONTypes(node schema.Node, val bytes.Byt
 	if !node.SetRealType(valStr) {
 		panic(errors.Format(errors.ErrIncompatibleTypes, valStr))
 	}
+}
+
+// jsonTypeOfSchemaType JSON types of the schema types which are not JSON types
+// themselves.
+var jsonTypeOfSchemaType = map[string]json.Type{
+	"decimal":  json.TypeFloat,
+	"email":    json.TypeString,
+	"uri":      json.TypeString,
+	"uuid":     json.TypeString,
+	"date":     json.TypeString,
+	"datetime": json.TypeString,
 }
 
 var jsonTypesHandler = map[string]func(node schema.Node){
